@@ -14,6 +14,10 @@ CLAIMED = {
          "exhaustive over all function bodies up to the stated size bound (every path of each, by lazy tape enumeration up to 12 decisions, 18 before a reported stack is called spurious), sampled beyond: per exit the reported stack set equals the observed set, and bounded <=> no execution repeats a defer statement. Exact (both inclusions) on everything enumerated; nothing is claimed for larger bodies than those sampled.",
          "Go toolchain; opaque decisions make every CFG path feasible; exits/defer statements identified through constant marker arguments in the SSA",
          "DESIGN.md §7 C16"),
+ "C10": ("runtime monitoring of the tool as a black box: generated one-call programs whose function bodies contradict their specification matrix; the reported flow set is compared with the matrix in both directions",
+         "held on every specification matrix enumerated: exhaustive over all 0/1 Args/Rets tables for arity<=3, results<=2 in the thorough tier (seeded sample of the large shapes in quick), each on one of five call forms (direct, method, interface invoke with conflicting implementation specs, function value, deferred) and with a body that says the opposite of the table; flow reported IFF listed.",
+         "the specification itself is the oracle (no execution needed: the statement is 'exactly as written'); diagonal (argument to itself) not checked; bodies do not alias parameters and results",
+         "DESIGN.md §7 C10"),
 }
 PENDING_REASON = "check not built yet at this commit (work in progress; see DESIGN.md §7 for the planned runtime monitor)"
 
